@@ -37,3 +37,10 @@ Definition m_apply_gop := @Guard.apply_gop key bytes key_cmp key_size val_size.
 Definition bytes_eqb (a b : bytes) : bool := match lex_cmp a b with Eq => true | _ => false end.
 Definition entry_eqb (x y : key * bytes) : bool :=
   match key_cmp (fst x) (fst y) with Eq => bytes_eqb (snd x) (snd y) | _ => false end.
+
+(* the logical-tree retain / extract (ScanTree.v) at the oracle's types, run next to the shape model *)
+From RV Require Import Btree.Scan Btree.RangeMut Btree.ScanTree.
+Definition m_retain_in := @ScanTree.t_retain_in key bytes key_cmp key_size val_size.
+Definition m_extract_new := @ScanTree.t_extract_new key bytes.
+Definition m_extract_next := @ScanTree.t_extract_next key bytes key_cmp key_size val_size.
+Definition m_extract_close := @ScanTree.t_extract_close key bytes key_cmp key_size val_size.
